@@ -7,4 +7,5 @@ INVARIANT Monotone
 INVARIANT EdgeIsInputPlusDelay
 INVARIANT Abstracts8
 INVARIANT CountsMatch
+INVARIANT OvlPropagates
 CHECK_DEADLOCK FALSE
